@@ -1,4 +1,5 @@
 import Goirc.Spec.Register
+import Goirc.Model.Life
 import Goirc.Spec.Irc
 import Goirc.Proofs.ParseRender
 import Goirc.Proofs.C18
@@ -81,5 +82,17 @@ theorem pong_same_token (c : Client) (tok : Bytes) (h : clean tok) :
       (dispatchInternal c l).out = [lit "PONG :" ++ tok] ∧
       ∃ l', parseLine c.ext (lit "PONG :" ++ tok) = some l' ∧ l'.args = [tok] :=
   ⟨_, parse_ping c.ext tok, dispatch_ping c _ tok h, _, parse_pong c.ext tok, rfl⟩
+
+/-- the ping goroutine exists exactly when the connection was made with client pings on (`PingFreq > 0`, the
+`some` case of `postConnect`'s branch; fact `shape_Conn_postConnect`), and the wait group counts it -/
+theorem ping_goroutine_iff (s s' : Go.Life.St) (t : Go.Life.Tid) (ping : Option Nat)
+    (hs : Go.Life.step s (.cSucceed t ping) = some s') :
+    (s'.g.ping ≠ .absent ↔ ping.isSome) ∧ s'.g.wg = (if ping.isSome then 4 else 3) := by
+  simp only [Go.Life.step] at hs
+  split at hs
+  · simp only [Option.some.injEq] at hs
+    subst hs
+    cases ping <;> simp
+  · simp at hs
 
 end Props.C18
